@@ -187,7 +187,7 @@ the walk over the text's segments. -/
 theorem traverser_plain (t : Tree) (T : Text) :
     traverser t { pathInfo := some (utf8Enc T), vroot := none, matchdict := none } =
       .ok (walkLoop (splitPathInfo T) [] [] 0 (splitPathInfo T) 0 t []) := by
-  simp only [traverser, requestPath, Option.getD_some, decodePathInfo, utf8Dec_utf8Enc, traverseText, vpath_shortcut]
+  simp only [traverser, requestPath, Option.getD_some, decodePathInfo, utf8Dec_utf8Enc, traverseText]
   by_cases h : T = []
   · subst h
     have : splitPathInfo ['/'] = splitPathInfo [] := by decide
